@@ -106,7 +106,7 @@ TotalHists ==
 \* What the API must return for each: a value or an error -- and which.
 HostNames == <<"H_nil", "H_nilptr_struct", "H_ptr_nilptr", "H_ptr_nilmap", "H_ptrptr_struct", "H_chan", "H_func", "H_int",
                "H_deep120", "H_selfref", "H_mixed_iface_slice", "H_map_intkeys", "H_map_mixed_iface", "H_struct_chan_field",
-               "H_nested_nil_iface", "H_empty_struct", "H_ptr_struct">>
+               "H_nested_nil_iface", "H_empty_struct", "H_ptr_struct", "H_iface_cycle", "H_ptr_cycle", "H_iface_cycle_field">>
 HostExpect(name, src) ==      \* for the source "1" (needs no variable)
   IF name \in {"H_nil", "H_ptrptr_struct", "H_empty_struct", "H_ptr_struct", "H_ptr_nilmap"} THEN "value" ELSE "error"   \* (a nil map is an empty environment)
 HostHists == Prod2(HostNames, <<SRC_one, SRC_syntax_err>>, LAMBDA hn, s : <<[op |-> "hosteval", src |-> s, host |-> hn]>>)
